@@ -194,6 +194,36 @@ def transpose_and_reshape(t, out):
     out.append("Definition rs_step (dn sn : Z) : Z := %s." % es)
 
 
+def leading_index(t, out):
+    """operator[](i) on rank > 1 (const and non-const): offset along dimension 0, the other dimensions shifted down"""
+    w = "operator[] (rank > 1)"
+    ms = [m for m in re.finditer(r"operator\[\]\s*\(\s*T\s+i\s*\)\s*(?:const\s*)?\{", t)
+          if "(Rank>1)" in squeeze(t[max(0, m.start() - 250):m.start()])]
+    if len(ms) != 2:
+        die("%s: %d definitions (2 expected)" % (w, len(ms)))
+    forms = set()
+    for m in ms:
+        o = m.end() - 1
+        d, i = 0, o
+        while True:
+            if t[i] == "{":
+                d += 1
+            elif t[i] == "}":
+                d -= 1
+                if d == 0:
+                    break
+            i += 1
+        forms.add(squeeze(t[o:i + 1]).replace("const_cast<Type*>(data_)", "data_"))
+    if len(forms) != 1:
+        die("%s: const and non-const bodies differ" % w)
+    m = re.fullmatch(r"\{intindex=([^;]+);ExpressionSize<Rank-1>new_dim;ExpressionSize<Rank-1>new_offset;for\(intj=1;j<Rank;\+\+j\)\{new_dim\[j-1\]=dimensions_\[j\];new_offset\[j-1\]=offset_\[j\];\}"
+                     r"returnArray<Rank-1,Type,IsActive>\(data_\+index,storage_,new_dim,new_offset\);\}", forms.pop())
+    if not m:
+        die("%s: form not recognised" % w)
+    out.append("(* operator[](i) on rank > 1: data_ + index, dimensions and strides 1.. moved down by one *)")
+    out.append("Definition ix_offset (r s : Z) : Z := %s." % arith(m.group(1), "i", "0", w))
+
+
 def main():
     t = S.strip(open(os.path.join(REPO, "include/adept/Array.h")).read())
     out = ["(* GENERATED by tools/gen_slice.py from include/adept/Array.h -- do not edit *)",
@@ -272,6 +302,7 @@ def main():
     out.append("Definition sl_start : Z := 0.")
     diag_and_sub(t, out)
     transpose_and_reshape(t, out)
+    leading_index(t, out)
     out.append("Definition sl_overloads : Z := %d." % n_over)
     sys.stdout.write("\n".join(out) + "\n")
 
